@@ -205,9 +205,17 @@ fn c03_conn_run_inner(s: &mut Src, stream: Vec<u8>, limit: Option<usize>, obs: &
             let x = ss.borrow();
             (x.recv_calls, x.write_calls, x.plain_read_calls)
         };
-        let op = s.weighted(&[40, 6, 3, 3, 3]);
+        let op = s.weighted(&[40, 6, 3, 3, 3, 1]);
         let (max_recv, max_write);
         match op {
+            5 => {
+                // the owner reconfigures the payload limit at any time
+                let l = [0usize, 1, 8, 100, 1024, 51200, u32::MAX as usize, usize::MAX][s.below(8)];
+                guard("HttpConnection::set_payload_max_size", b"", || conn.set_payload_max_size(l))?;
+                obs.label("limit_changed_mid_connection");
+                max_recv = 0;
+                max_write = 0;
+            }
             0 => {
                 let ev = match s.weighted(&[30, 3, 3, 2, 2]) {
                     0 => {
